@@ -300,9 +300,8 @@ func SubscribeWithReplay[T any](
 	lastOffset, _ := subStore.LoadOffset(ctx, subscriptionID)
 
 	// Replay missed events
-	var eventType = reflect.TypeOf((*T)(nil)).Elem()
 	// Use consistent type naming with EventType() function
-	typeName := eventType.String()
+	typeName := typeNameOf[T]()
 	err := bus.Replay(ctx, lastOffset, func(stored *StoredEvent) error {
 		// Apply upcasts if available
 		eventData, eventTypeName := stored.Data, stored.Type
